@@ -1,2 +1,6 @@
 //! vref: reference models written from the RFC text. Nothing in here uses hickory code.
 pub mod wire;
+pub mod name;
+pub mod update;
+pub mod cache;
+pub mod frame;
